@@ -25,7 +25,7 @@ EXPLANATION = (
     "skip/stride/atom_indices/chunk dependence.")
 NOT_DECIDED = ["equality of the values read (run-time)", "the XDR offset arithmetic inside C", "efficient-striding seek path of xtc/trr beyond its structure"]
 ASSUMPTIONS = ["read_next_timestep / read_xtc / read_trr consume exactly one frame per successful call"]
-FLOORS = {"C02-R1": 30, "C02-R2": 8, "C02-R3": 3, "C02-R4": 6, "C02-R5": 15, "C02-R6": 8, "C02-R7": 8, "C02-R8": 19}
+FLOORS = {"C02-R1": 30, "C02-R2": 8, "C02-R3": 3, "C02-R4": 20, "C02-R5": 15, "C02-R6": 8, "C02-R7": 8, "C02-R8": 19}
 
 LOADERS = {  # ext -> class key
     ".xtc": "xtc", ".trr": "trr", ".dcd": "dcd", ".dtr": "dtr", ".h5": "h5", ".nc": "nc", ".mdcrd": "mdcrd", ".xyz": "xyz",
@@ -148,6 +148,7 @@ def check(ctx):
     _r6(ctx)
     _r7_reader_buffers(ctx)
     _r8_text_readers(ctx)
+    _r9_whole_file_loaders(ctx)
 
 
 # ---------------------------------------------------------------------------------------------
@@ -504,27 +505,8 @@ def _r3(ctx):
 
 
 def _r4(ctx):
-    # the file classes: _rat_by_evaluation
-    # load_pdb
-    rel = "mdtraj/formats/pdb/pdbfile.py"
-    fn = ctx.py.func(rel, "load_pdb")
-    bad = None
-    for n in walk_no_nested(fn):
-        if isinstance(n, ast.If) and "frame is not None" in src(n.test):
-            for s in n.body:
-                if isinstance(s, ast.AugAssign) and dotted(s.target) == "time" and isinstance(s.op, ast.Mult) and "frame" in src(s.value):
-                    bad = s
-    tdefs = [n for n in walk_no_nested(fn) if isinstance(n, (ast.Assign, ast.AugAssign)) and dotted(n.targets[0] if isinstance(n, ast.Assign) else n.target) == "time"]
-    if not tdefs:
-        ctx.undecided("C02-R4", fn, rel, "load_pdb", "time", "no synthesised time found")
-    elif bad is not None:
-        ctx.violated("C02-R4", bad, rel, "load_pdb", "`%s`" % src(bad),
-                     "time of a single loaded frame is arange(1)*frame = 0 instead of `frame`: load_frame(f, k).time != load(f)[k].time")
-    else:
-        uses_frame = any("frame" in src(n) for n in tdefs)
-        uses_stride = any("stride" in src(n) for n in tdefs)
-        ctx.decide(uses_frame and uses_stride, "C02-R4", tdefs[0], rel, "load_pdb", "time depends on frame and stride", "",
-                   "synthesised time ignores %s" % ("frame" if not uses_frame else "stride"))
+    # synthesised time: the file classes in _rat_by_evaluation, load_pdb / load_pdbx in _r9_whole_file_loaders (both by value)
+    return
 
 
 def _r5(ctx):
@@ -878,3 +860,76 @@ def ctx_pyval(v):
         c = v.const_value()
         return int(c) if c is not None and c.denominator == 1 else v
     return v
+
+
+# ---------------------------------------------------------------------------------------------
+PDB_LOADERS = [("mdtraj/formats/pdb/pdbfile.py", "load_pdb", "PDBTrajectoryFile"), ("mdtraj/formats/pdbx.py", "load_pdbx", "PDBxTrajectoryFile")]
+
+
+def _r9_whole_file_loaders(ctx):
+    """load_pdb / load_pdbx hold all models in memory and do the frame / stride / atom selection themselves.  Evaluated (sa/tensym.py) with the file
+    class summarised as an object holding positions[5 models, 4 atoms, 3], a topology and no cell, for frame in {None, 0, 3} x stride in {None, 2} x
+    atom_indices in {None, [2, 0]}: the Trajectory built gets the coordinates, times and topology of the definition
+        load(f, stride=s, atom_indices=a) = load(f)[::s] restricted to a;    load_frame(f, k, a) = load(f)[k] restricted to a   (time included)."""
+    from ..tensym import TenSym, Obj, Raised, Ten, Rat, Poly
+    from ..pysym import Unsupported as PUnsupported
+    NF, NA = 5, 4
+    for rel, lname, cls in PDB_LOADERS:
+        lf = ctx.py.func(rel, lname)
+        mod_funcs = {q_: f_ for q_, f_ in ctx.py.mod(rel).functions.items() if "." not in q_ and q_ != lname}
+        pr = params(lf)
+        for frame in (None, 0, 3):
+            for stride in (None, 2):
+                for ai in (None, [2, 0]):
+                    if frame is not None and stride is not None:
+                        continue
+                    desc = "frame=%s, stride=%s, atom_indices=%s" % (frame, stride, ai)
+                    pos = Ten.sym("x", (NF, NA, 3))
+                    full = Obj(tag="full topology", n_atoms=NA, _numAtoms=NA, _lenient=True)
+                    sub = Obj(tag="subset topology", n_atoms=2, _numAtoms=2, _lenient=True)
+                    subs = []
+                    full.subset = lambda a_, _s=subs, _sub=sub: (_s.append(a_), _sub)[1]
+                    made = []
+
+                    def mkfile(ev, call, _pos=pos, _full=full):
+                        o = Obj(tag="file", positions=Ten(_pos.shape, list(_pos.data)), topology=_full, unitcell_lengths=None, unitcell_angles=None, distance_unit="angstroms", _lenient=True)
+                        o.__enter__ = lambda: o
+                        return o
+
+                    def mktraj(ev, call, _made=made):
+                        kw = {k.arg: ev.ex(k.value) for k in call.keywords}
+                        for i_, a_ in enumerate(call.args):
+                            kw[("xyz", "topology", "time")[i_]] = ev.ex(a_)
+                        _made.append(kw)
+                        return Obj(tag="traj", unitcell_lengths=None, _lenient=True)
+                    ts = TenSym({"Trajectory": Obj(_distance_unit="nanometers")}, funcs=mod_funcs,
+                                models={cls: mkfile, "Trajectory": mktraj, "in_units_of": lambda ev, c: ev.ex(c.args[0]), "cast_indices": lambda ev, c: ev.ex(c.args[0]),
+                                        "_parse_topology": lambda ev, c: None, "warnings.warn": lambda ev, c: None, "open_maybe_zipped": lambda ev, c: None})
+                    ts.module_env = {"os": Obj(PathLike="PathLike")}
+                    given = {p_: v_ for p_, v_ in (("filename", "file.pdb"), ("stride", stride), ("atom_indices", ai), ("frame", frame), ("top", None)) if p_ in pr}
+                    try:
+                        ts.run_fn(lf, **given)
+                    except Raised as e:
+                        ctx.violated("C02-R4", lf, rel, lname, desc + ": the frames, atoms and times of the definition", "the loader raises %s" % (e.exc or e))
+                        continue
+                    except PUnsupported as e:
+                        ctx.undecided("C02-R4", lf, rel, lname, desc + ": the frames, atoms and times of the definition", "not evaluable: %s" % e)
+                        continue
+                    frames = [frame] if frame is not None else list(range(0, NF, stride or 1))
+                    atoms = ai if ai is not None else list(range(NA))
+                    why = []
+                    if len(made) != 1:
+                        why.append("%d Trajectory objects are built" % len(made))
+                    else:
+                        kw = made[0]
+                        x = kw.get("xyz")
+                        exp = [pos.data[(f_ * NA + a_) * 3 + k_] for f_ in frames for a_ in atoms for k_ in range(3)]
+                        if not (isinstance(x, Ten) and x.shape == (len(frames), len(atoms), 3) and all(_same(p_, q_) for p_, q_ in zip(x.data, exp))):
+                            why.append("the coordinates are not those of models %s, atoms %s (shape %s)" % (frames, atoms, getattr(x, "shape", None)))
+                        t = kw.get("time")
+                        if not (isinstance(t, Ten) and t.shape == (len(frames),) and all(_same(p_, Rat(Poly.const(f_))) for p_, f_ in zip(t.data, frames))):
+                            why.append("time is %s; the same frames of the fully loaded file carry %s" % ([str(v_) for v_ in t.data] if isinstance(t, Ten) else t, frames))
+                        want_top = sub if ai is not None else full
+                        if kw.get("topology") is not want_top or (ai is not None and subs != [ai]):
+                            why.append("the topology handed over is the %s" % getattr(kw.get("topology"), "tag", kw.get("topology")))
+                    ctx.decide(not why, "C02-R4", lf, rel, lname, desc + ": the frames, atoms and times of the definition", "", "; ".join(why))
